@@ -36,10 +36,10 @@ def run(ctx):
 
 def replay(obj):
     case = obj["case"]
-    if obj.get("stream") == "relative" or obj.get("stream") == "labels":
-        import hera.data as D
-        from harness import progrun
-        st = progrun.make_settings(mode=case.get("mode", ""), big_stack=case.get("big_stack", False))
-        res, oplist, prog, pm, exc = chk.real_check(case["text"], st)
-        return obj.get("what") if True else None
+    if obj.get("stream") in ("relative", "labels"):
+        return labels.replay_case(obj["stream"], case)
+    if obj.get("stream") == "chk":
+        r = chk.check_texts([case])
+        v = [x for x in r["violations"] if x.get("property", ID) == ID]
+        return v[0]["what"] if v else None
     return None
